@@ -3,6 +3,8 @@
  * other session never redirects or silences them"), not from the code.  Shared: enforced in unit udp_close, assumed (replaced) at the
  * closeNow call sites of unit udp_send.
  *
+ * A replaced call may destroy *s (frees clause): no clause below reads *s in the post-state (X4 "marked closed" is a separate, enforce-only
+ * contract in udp_close/post.c).
  * Ghost keys GPK / GSID / GFD are arbitrary: every clause holds for every peer key, session id and descriptor. */
 #ifndef CLOSENOW_CONTRACT_H
 #define CLOSENOW_CONTRACT_H
@@ -12,24 +14,27 @@
 #define CN_CLIENT (__CPROVER_old(s->role) == Role_ClientConnected)
 #define CN_CBSET  (__CPROVER_old(self->_cbs.onClose.set))
 
-void UdpEngine_closeNow_contract(UdpEngine *self, Session *s, TransportError why, iora_strid m, int iora_unused)
-/* preconditions: facts of the call sites (process/Close, sendDo, writeClient, onClient, runGc all pass a pointer obtained from
- * _sessions / a tag of a live session, on the I/O thread, holding no engine lock) and engine invariants (see unit.json trusted_base) */
-__CPROVER_requires(IORA_TRUE && __CPROVER_is_fresh(self, sizeof(*self)) && __CPROVER_is_fresh(s, sizeof(*s)) && !s->closed)
-__CPROVER_requires(IORA_NO_LOCK_HELD(self))
-/* OWN  the table owns s under its id */
-__CPROVER_requires(s->id == GSID ==> (self->_sessions.has && self->_sessions.val == s))
-/* INVa an index entry points at a session that is in the table */
-__CPROVER_requires((self->_peerIndex.has && self->_peerIndex.val == GSID) ==> self->_sessions.has)
-/* INVb an index entry k -> id belongs to a listener-side session whose own key is k */
-__CPROVER_requires((self->_peerIndex.has && self->_peerIndex.val == s->id) ==> (s->pkey == GPK && s->role == Role_ServerPeer))
-/* GAUGE an open session is counted */
-__CPROVER_requires(self->_atomicStats.sessionsCurrent >= 1)
-__CPROVER_requires(G_closeCb_calls < IORA_SAT && G_close_calls < IORA_SAT && G_delEpoll_calls < IORA_SAT)
-__CPROVER_assigns(s->closed, self->_peerIndex, self->_sessions.has, self->_sessions.val, self->_tags,
-                  self->_atomicStats.closed, self->_atomicStats.sessionsCurrent, self->_cbMutex.held, self->_sessionRwMutex.held,
-                  G.cl)
+#define CLOSENOW_PRE_AND_FRAME \
+/* preconditions: facts of the call sites (process/Close, sendDo, writeClient, onClient, runGc all pass a pointer obtained from \
+ * _sessions / a tag of a live session, on the I/O thread, holding no engine lock) and engine invariants (see unit.json trusted_base) */ \
+__CPROVER_requires(IORA_TRUE && __CPROVER_is_fresh(self, sizeof(*self)) && __CPROVER_is_fresh(s, sizeof(*s)) && !s->closed) \
+__CPROVER_requires(IORA_NO_LOCK_HELD(self)) \
+/* OWN  the table owns s under its id */ \
+__CPROVER_requires(s->id == GSID ==> (self->_sessions.has && self->_sessions.val == s)) \
+/* INVa an index entry points at a session that is in the table */ \
+__CPROVER_requires((self->_peerIndex.has && self->_peerIndex.val == GSID) ==> self->_sessions.has) \
+/* INVb an index entry k -> id belongs to a listener-side session whose own key is k */ \
+__CPROVER_requires((self->_peerIndex.has && self->_peerIndex.val == s->id) ==> (s->pkey == GPK && s->role == Role_ServerPeer)) \
+/* GAUGE an open session is counted */ \
+__CPROVER_requires(self->_atomicStats.sessionsCurrent >= 1) \
+__CPROVER_requires(G_closeCb_calls < IORA_SAT && G_close_calls < IORA_SAT && G_delEpoll_calls < IORA_SAT) \
+__CPROVER_assigns(s->closed, self->_peerIndex, self->_sessions.has, self->_sessions.val, self->_tags, \
+                  self->_atomicStats.closed, self->_atomicStats.sessionsCurrent, self->_cbMutex.held, self->_sessionRwMutex.held, \
+                  G.cl) \
 __CPROVER_frees(s)
+
+void UdpEngine_closeNow_contract(UdpEngine *self, Session *s, TransportError why, iora_strid m, int iora_unused)
+CLOSENOW_PRE_AND_FRAME
 /* X1a exactly one close notification */ __CPROVER_ensures(G_closeCb_calls == __CPROVER_old(G_closeCb_calls) + (CN_CBSET ? 1u : 0u))
 /* X1b carrying this session's id and the reason */ __CPROVER_ensures(CN_CBSET ==> (G_closeCb_sid == CN_SID0 && G_closeCb_why == why))
 /* X2a erased from the table BEFORE the application was told */ __CPROVER_ensures(CN_CBSET ==> G_closeCb_erased)
@@ -37,9 +42,6 @@ __CPROVER_frees(s)
 /* X2c table frame: other ids keep their entry */ __CPROVER_ensures(CN_SID0 != GSID ==> (self->_sessions.has == __CPROVER_old(self->_sessions.has) && self->_sessions.val == __CPROVER_old(self->_sessions.val)))
 /* X3a closed counter +1 exactly once */ __CPROVER_ensures(self->_atomicStats.closed == __CPROVER_old(self->_atomicStats.closed) + 1)
 /* X3b gauge -1 exactly once, never below zero */ __CPROVER_ensures(self->_atomicStats.sessionsCurrent == __CPROVER_old(self->_atomicStats.sessionsCurrent) - 1)
-/* X5 the erase destroys the session object (unique_ptr): any later use is a pointer obligation for the caller */ __CPROVER_ensures(CN_SID0 == GSID ==> __CPROVER_was_freed(s))
-/* X5b (witness model) a session under another id than the witness id is not modelled as destroyed */ __CPROVER_ensures(CN_SID0 != GSID ==> !__CPROVER_was_freed(s))
-/* X4 marked closed (observable while the object exists, i.e. for a witness id other than this one) */ __CPROVER_ensures(CN_SID0 != GSID ==> s->closed)
 /* U1 peer-index FRAME: an entry that maps to ANOTHER session is left alone (C06: closing some other session never redirects) */ __CPROVER_ensures((__CPROVER_old(self->_peerIndex.has) && __CPROVER_old(self->_peerIndex.val) != CN_SID0) ==> (self->_peerIndex.has && self->_peerIndex.val == __CPROVER_old(self->_peerIndex.val)))
 /* U1b peer-index frame: no entry appears */ __CPROVER_ensures(!__CPROVER_old(self->_peerIndex.has) ==> !self->_peerIndex.has)
 /* U2 the index entry of THIS session is removed (nothing is routed to a closed session) */ __CPROVER_ensures((__CPROVER_old(self->_peerIndex.has) && __CPROVER_old(self->_peerIndex.val) == CN_SID0) ==> !self->_peerIndex.has)
